@@ -42,7 +42,12 @@ class StubEzsp:
         if a == "o":
             self.tab[idx] = [int(entry.multicastId), int(entry.endpoint)]
             return (t.EmberStatus.SUCCESS,)
-        return (t.EmberStatus(REJ),)
+        # the rejection status varies from write to write: every non-OK status of either status family is a rejection like any other
+        rejs = [t.EmberStatus(REJ), t.EmberStatus.ERR_FATAL, t.EmberStatus.INDEX_OUT_OF_RANGE, t.EmberStatus.INVALID_CALL, t.sl_Status.FAIL,
+                t.sl_Status.INVALID_PARAMETER, t.EmberStatus.TABLE_FULL]
+        self.nrej = getattr(self, "nrej", 0) + 1
+        self.last_rej = rejs[self.nrej % len(rejs)]
+        return (self.last_rej,)
 
 
 def host_state(mc):
@@ -106,6 +111,7 @@ async def run_seq(tab, ops):
         after = host_state(mc)
         w = ez.writes[0] if ez.writes else None
         recs.append({"op": op, "res": res, "write": w, "nwrites": len(ez.writes), "writes": list(ez.writes), "before": before, "after": after,
+                     "rej": (int(ez.last_rej) if res.startswith("ST") and getattr(ez, "last_rej", None) is not None else REJ),
                      "tab_before": tab_before, "tab": [tuple(e) for e in ez.tab]})
     return recs
 
@@ -150,11 +156,11 @@ def driver_line(tab, recs):
                     ops.append(f"S/{g}/{c}/o")
                     r["nmodel"] += 1
         elif op[0] == "S":
-            a = {"o": "o", "t": "t", "r": f"r{REJ}"}[op[2]]
+            a = {"o": "o", "t": "t", "r": f"r{r.get('rej', REJ)}"}[op[2]]
             choice = r["write"][0] if r["write"] else 0
             ops.append(f"S/{op[1]}/{choice}/{a}")
         else:
-            a = {"o": "o", "t": "t", "r": f"r{REJ}"}[op[2]]
+            a = {"o": "o", "t": "t", "r": f"r{r.get('rej', REJ)}"}[op[2]]
             ops.append(f"U/{op[1]}/{a}")
     t = ",".join(f"{g}:{e}" for g, e in tab) or "-"
     return f"c15 run {t} {';'.join(ops)}"
@@ -314,7 +320,9 @@ def run(ctx, depth=None, budget=None):
 
 
 def search(ctx):
-    run(ctx, depth=4)
+    # (depth 4 is ~1.6 million calls, a quarter of an hour: thorough tier only; the quick tier repeats its own enumeration with the
+    # random part reseeded)
+    run(ctx, depth=4 if ctx.tier == "thorough" else None)
 
 
 def replay(ctx, obj):
